@@ -108,7 +108,8 @@ func init() {
 		Assumptions: amfAssume,
 		Harnesses: []harnessSpec{
 			{Pkg: "amf0", Func: "HarnessC06_LibToRef", Labels: []string{"lib-to-ref"}, Bound: "trees as C05_Tree; library bytes decoded by the reference decoder"},
-			{Pkg: "amf0", Func: "HarnessC06_RefToLib", Labels: []string{"ref-to-lib"}, Bound: "trees as C05_Tree (contents below a strict array concrete); reference bytes decoded by the library"},
+			{Pkg: "amf0", Func: "HarnessC06_RefToLib", Labels: []string{"ref-to-lib"}, Bound: "trees as C05_Tree (contents below a strict array concrete); reference bytes (true encoded as any non-zero symbolic byte) decoded by the library"},
+			{Pkg: "amf0", Func: "HarnessC06_LongStrings", Labels: []string{"longstrings"}, Bound: "strings and property names of 255/256/257/65535 bytes (3 symbolic positions), both directions"},
 			{Pkg: "amf0", Func: "HarnessC06_Markers", Labels: []string{"marker-eof", "marker-supported", "marker-unsupported"}, Bound: "all 256 marker bytes (symbolic) followed by 0-2 symbolic bytes"},
 		},
 	})
